@@ -30,6 +30,9 @@ def _fractional(node):
     return False
 
 
+_ATTR_P_CACHE = {}
+
+
 class DtypeFlow(Flow):
     def __init__(self, finfo):
         self.f = finfo
@@ -159,6 +162,9 @@ class DtypeFlow(Flow):
         cls = getattr(self.f, 'cls', None)
         if cls is None:
             return out
+        key = id(cls)
+        if key in _ATTR_P_CACHE and _ATTR_P_CACHE[key][0] is cls:
+            return _ATTR_P_CACHE[key][1]
         never = set()
         for m in cls.all_functions():
             params = set(m.params) - {'self', 'cls'}
@@ -177,6 +183,7 @@ class DtypeFlow(Flow):
                             out.add(t.attr)
                         else:
                             never.add(t.attr)
+        _ATTR_P_CACHE[key] = (cls, out - never)
         return out - never
 
     @staticmethod
